@@ -3,6 +3,7 @@ package main
 import (
 	"go/ast"
 	"sort"
+	"strings"
 )
 
 func init() {
@@ -46,8 +47,17 @@ func (g *gen) funcTable(rel, varName string) []funcEntry {
 					fields[order[i]] = f
 				}
 			}
+			for f := range fields {
+				if f != "Apply" && f != "ValidArgLengths" {
+					g.fail("%s: %s[%q] has a field %s the translator does not know", rel, varName, name, f)
+				}
+			}
 			if id, ok := fields["Apply"].(*ast.Ident); ok {
 				fe.Fn = id.Name
+			} else if fields["Apply"] == nil {
+				fe.Fn = "nil"
+			} else {
+				fe.Fn = "<expr>"
 			}
 			if al, ok := fields["ValidArgLengths"].(*ast.CompositeLit); ok {
 				for _, e := range al.Elts {
@@ -71,8 +81,31 @@ func (g *gen) funcTable(rel, varName string) []funcEntry {
 	return res
 }
 
+// funcTable2: a function table by pattern and by evaluation (evalsoyhtml.go), combined by g.choose.
+func (g *gen) funcTable2(rel, varName string, withLens bool) []funcEntry {
+	var fs []funcEntry
+	perr := g.silent(func() { fs = g.funcTable(rel, varName) })
+	pats := ""
+	if len(perr) == 0 {
+		pats = canonFuncs(fs)
+	}
+	ev, everrs := g.evalSoyhtml()
+	evs := ""
+	evFs, ok := evalFuncs(ev, varName, withLens)
+	if ok {
+		evs = canonFuncs(evFs)
+	}
+	switch g.choose(rel+" "+varName, pats, strings.Join(perr, "; "), evs, evErr(everrs, varName)) {
+	case routeEval:
+		return evFs
+	case routeNone:
+		return nil
+	}
+	return fs
+}
+
 func (g *gen) htmlFuncs() {
-	fs := g.funcTable("soyhtml/funcs.go", "Funcs")
+	fs := g.funcTable2("soyhtml/funcs.go", "Funcs", true)
 	g.p("(* soyhtml/funcs.go Funcs: name -> valid argument counts *)\n")
 	g.p("Definition html_funcs : list (bstr * list N) := [\n")
 	for i, f := range fs {
@@ -83,7 +116,7 @@ func (g *gen) htmlFuncs() {
 		g.p("  (%s (* %s *), %s)%s\n", coqBytes(f.Name), f.Name, coqIntList(f.ArgLens), sep)
 	}
 	g.p("].\n")
-	lf := g.funcTable("soyhtml/funcs.go", "loopFuncs")
+	lf := g.funcTable2("soyhtml/funcs.go", "loopFuncs", false)
 	g.p("Definition html_loop_funcs : list bstr := [")
 	for i, f := range lf {
 		if i > 0 {
